@@ -99,7 +99,25 @@ class FmtDiff:
         return "<FmtDiff>"
 
 
-NVAL = 12
+class Lay:
+    """value of key b in the nested-spec cases: usable as a width in every spelling -
+    {b} -> "7", {b()} -> 9, {b.a} -> 8, {b.r()} -> 6"""
+
+    def __init__(self):
+        self.a = 8
+        self.r = lambda: 6
+
+    def __call__(self):
+        return 9
+
+    def __str__(self):
+        return "7"
+
+    def __repr__(self):
+        return "<Lay>"
+
+
+NVAL = 12      # values of key a; _value(12) is the Lay used for key b
 
 
 def _value(k):
@@ -125,7 +143,9 @@ def _value(k):
         return 2.5
     if k == 10:
         return Counter()
-    return FmtDiff()
+    if k == 11:
+        return FmtDiff()
+    return Lay()
 
 
 def _failure():
@@ -261,7 +281,7 @@ def single(body: str, va: int, fl: bool) -> bool:
     post: _
     """
     # one replacement field 'a' + symbolic rest (lookups, call syntax, conversion, spec)
-    r = _check("<{a" + body + "}>", va, 0, fl, field="a" + body)
+    r = _check("<{a" + body + "}>", va, 12, fl, field="a" + body)
     if r is None:
         return True
     cover()
@@ -310,14 +330,16 @@ def chain(va: int, ci: int, tail: str) -> bool:
     # 'a' + a lookup chain that exists on the value (attribute / index / call syntax in any position)
     # + symbolic tail (conversion and / or format spec - or anything else)
     field = "a" + _pick(ci, CHAINS[va]) + tail
-    r = _check("<{" + field + "}>", va, 0, False, field=field)
+    r = _check("<{" + field + "}>", va, 12, False, field=field)
     if r is None:
         return True
     cover()
     return r
 
 
-TAILS = ("", "!r", "!s", "!a", ":", ":>9", "!r:<9", "()", ":{b}", "!s:>{b}")
+# conversion / spec suffixes; the nested replacement fields in a spec use plain, call and method-call
+# syntax (key b is a Lay)
+TAILS = ("", "!r", "!s", "!a", ":", ":>{b}", "!r:<9", "()", ":{b()}", "!s:>{b.r()}")
 
 
 def double(t1: int, t2: int, va: int, second: int, ci: int) -> bool:
@@ -330,7 +352,7 @@ def double(t1: int, t2: int, va: int, second: int, ci: int) -> bool:
     # spec: the '/2' counter of KeyFlattener) or a and b; menus only (the solver drives the split)
     name1 = "a" + _pick(ci, CHAINS[va])
     name2 = name1 if second == 0 else "b"
-    r = _check("{" + name1 + _pick(t1, TAILS) + "} and {" + name2 + _pick(t2, TAILS) + "}", va, 0, False)
+    r = _check("{" + name1 + _pick(t1, TAILS) + "} and {" + name2 + _pick(t2, TAILS) + "}", va, 12, False)
     if r is None:
         return True
     cover()
@@ -378,7 +400,8 @@ VECTORS = {
     # test_json (round trips incl. bytes, Failure) mapped onto the menus
     "single": [("", 0, False), ("!r", 1, True), (".r()", 4, False), ("[0]", 2, False), ("()", 5, False),
                ("[b][0]", 3, False), (".s[1]!r", 4, True), ("!s", 7, False), (":>5", 0, False), ("!a", 1, False),
-               ("().b", 6, False), ("!r:>12", 1, False), (":{b}", 1, False)],
+               ("().b", 6, False), ("!r:>12", 1, False), (":{b}", 1, False), (":>{b()}", 1, False),
+               (":0{b.r()}d", 0, True), ("!r:^{b.a}", 1, False)],
     "free_field": [("a", 9), ("b.a", 0), ("b.r()!r", 0), ("a[a]", 3)],
     "chain": [(4, 4, "!r"), (6, 3, ""), (3, 3, "!s"), (2, 1, ":>4"), (0, 1, "!a")],
     "double": [(0, 0, 0, 0, 0), (1, 2, 1, 0, 0), (1, 1, 1, 0, 0), (0, 1, 4, 1, 1), (7, 7, 5, 0, 0), (5, 6, 0, 0, 0),
@@ -391,7 +414,7 @@ BOUNDS_TEXT = ("format strings '<{a' + body + '}>' with symbolic body of <= m ch
                "exist on the value (attribute, index, call syntax in last and non-last position; the first "
                "cc+1 of up to 8 chains per value, 40 in all) + symbolic tail of <= k characters = conversion / format spec / anything (chain), and two "
                "fields {x t1} and {x|b t2} with x one of the first dc+1 chains of the value and t1, t2 from 10 conversion / spec suffixes incl. "
-               "nested specs (double; menus); values: int, str with quote / backslash / non-ASCII / newline, "
+               "nested specs whose inner field uses plain / call / method-call syntax (double; menus); values: int, str with quote / backslash / non-ASCII / newline, "
                "list, dict, object with attributes, callables returning text / an object / a fresh count per "
                "call, bytes, None, float, object whose format(x, '') differs from str(x)")
 OUTSIDE = ["events whose format string does NOT format on the original event (formatWithCall raises): nothing is "
